@@ -43,6 +43,13 @@ def is_docstring_stmt(n):
     return isinstance(n, ast.Expr) and isinstance(n.value, ast.Constant) and isinstance(n.value.value, str)
 
 
+def env_lookup(env, name):
+    for d in reversed(env or []):
+        if name in d:
+            return d[name]
+    return None
+
+
 def debug_test(test, env=None):
     """the four documented truthy forms of a __debug__ test. `env` = leading `Name = True/False` assignments of the enclosing
     function/module bodies: an output that kept the statement may spell the constant through an introduced alias."""
@@ -51,10 +58,7 @@ def debug_test(test, env=None):
     if isinstance(test, ast.Compare) and len(test.ops) == 1 and isinstance(test.left, ast.Name) and test.left.id == '__debug__':
         c = test.comparators[0]
         if isinstance(c, ast.Name) and env:
-            for d in reversed(env):
-                if c.id in d:
-                    c = d[c.id]
-                    break
+            c = env_lookup(env, c.id) or c
         if isinstance(c, ast.Constant):
             if isinstance(test.ops[0], ast.Is) and c.value is True:
                 return True
@@ -186,8 +190,7 @@ class Normaliser(object):
             if is_docstring_stmt(st) or (isinstance(st, ast.ImportFrom) and st.module == '__future__'):
                 continue
             if isinstance(st, ast.Assign) and len(st.targets) == 1 and isinstance(st.targets[0], ast.Name) and isinstance(st.value, ast.Constant):
-                if isinstance(st.value.value, bool):
-                    d[st.targets[0].id] = st.value
+                d[st.targets[0].id] = st.value
                 continue
             if isinstance(st, ast.Assign) and len(st.targets) == 1 and isinstance(st.targets[0], ast.Name) and isinstance(st.value, ast.Name):
                 continue
@@ -210,6 +213,8 @@ class Normaliser(object):
                 continue
             if o.get('remove_literal_statements') and is_literal_stmt(st) and st is not protect:
                 continue
+            if o.get('remove_literal_statements') and isinstance(st, ast.Expr) and isinstance(st.value, ast.Name) and env_lookup(self.env, st.value.id) is not None:
+                continue        # a literal statement the output kept, spelled through an introduced alias
             if o.get('remove_asserts') and isinstance(st, ast.Assert):
                 continue
             if o.get('remove_debug') and isinstance(st, ast.If) and debug_test(st.test, self.env):
@@ -580,7 +585,7 @@ class Matcher(object):
             self.node(p.value, q.value, path + '.value')
             if p.value is None and enabled and not protected and isinstance(q.annotation, ast.Constant) and not (isinstance(p.annotation, ast.Constant) and ckey(p.annotation.value) == ckey(q.annotation.value)):
                 self.r.rule('annotation-replaced-by-constant')
-            elif p.value is None and isinstance(q.annotation, ast.Constant) and not isinstance(p.annotation, ast.Constant):
+            elif p.value is None and isinstance(q.annotation, ast.Constant) and not (isinstance(p.annotation, ast.Constant) and ckey(p.annotation.value) == ckey(q.annotation.value)):
                 self.r.diff(path, 'annotation-removed-where-not-allowed', p, 'class-attribute=%s protected=%s option-enabled=%s' % (in_class, protected, bool(enabled)))
             else:
                 self.node(p.annotation, q.annotation, path + '.annotation')
